@@ -58,7 +58,7 @@ func allMapRanges(p *Prog) []mapRange {
 
 func checkC06(c *Ctx) {
 	r, p := c.R, c.P
-	r.Explanation = "Decides that nothing the Go runtime randomises or that differs between runs can reach the generated Rego or the report through the module's own code. (D1) Every range over a map in the module is analysed: its body's effects must be confined to the current key/value, to other maps indexed by the current key, to commutative accumulation, or to a slice that is sorted after the loop before any other use; otherwise the iteration order escapes. (D2) Census, over the functions reachable from the library's entry points, of every other nondeterminism source: time.Now (allowed only in the event constructor and in the default validation configuration's clock), math/rand, crypto/rand, os.Getenv/Environ, select, goroutines, reflect map iteration, and pointer-typed operands of formatting calls (an address in generated text); a pointer operand is accepted only when it is dead: guarded by `*p > 0` while every store to a cell of that type in the package writes the constant 0. (D3) Shared mutable state is excluded by C10's rules, re-checked here for the one shared counter: it is monotone (no reset in reach of the entry points). Ordering inside OPA (sets are serialised sorted) and encoding/json (map keys sorted) is the documented, trusted base."
+	r.Explanation = "Decides that nothing the Go runtime randomises or that differs between runs can reach the generated Rego or the report through the module's own code. (D1) Every range over a map in the module is analysed: its body's effects must be confined to the current key/value, to other maps indexed by the current key, to commutative accumulation, or to a slice that is sorted after the loop before any other use; otherwise the iteration order escapes. (D2) Census, over the functions reachable from the library's entry points, of every other nondeterminism source: time.Now (allowed only in the event constructor and in the default validation configuration's clock), math/rand, crypto/rand, os.Getenv/Environ, select, goroutines, reflect map iteration, and pointer-typed operands of formatting calls (an address in generated text); a pointer operand is accepted only when it is dead: guarded by `*p > 0` while every store to a cell of that type in the package writes the constant 0. (D4) No package-level variable is written in reach of the entry points (plain, through an alias, under a lock, sync.Map, atomic store/swap; monotone atomic increments excepted), so nothing an earlier call computed can reach a later call's output. (D3) Shared mutable state is excluded by C10's rules, re-checked here for the one shared counter: it is monotone (no reset in reach of the entry points). Ordering inside OPA (sets are serialised sorted) and encoding/json (map keys sorted) is the documented, trusted base."
 	r.Declines = []string{"OPA's serialisation order of sets and encoding/json's key order (documented sorted; trusted)", "json-gold's node order and blank-node labels"}
 	r.Trusted = []string{"sort.Strings/sort.Sort are deterministic", "encoding/json sorts map keys", "OPA serialises sets in sorted order"}
 	r.Rule("C06.D1", "map iteration order never escapes a loop", 5)
@@ -171,6 +171,20 @@ func checkC06(c *Ctx) {
 		// no shared counter at all is fine as long as C10 holds; record the absence
 		r.OK("C06.D3", "no-shared-counter", "", "no atomically accessed package-level variable in reach of the entry points")
 	}
+
+	// ---- D4: the output of a run is a function of its inputs only if no earlier run can leave anything behind
+	r.Rule("C06.D4", "no state survives a call in a package-level variable (memo tables and caches make the output depend on earlier calls)", 1)
+	stateful := 0
+	for _, g := range moduleGlobals(p) {
+		if w := crossCallWrites(p, ms, g, funcs); len(w) > 0 {
+			stateful++
+			if len(w) > 4 {
+				w = append(w[:4], fmt.Sprintf("... %d more", len(w)-4))
+			}
+			r.Bad("C06.D4", globalKey(g), p.Pos(g.Pos()), "state written here survives the call and is read by later calls, so the same inputs need not produce the same output: "+strings.Join(w, "; "))
+		}
+	}
+	r.OK("C06.D4", "census", "", fmt.Sprintf("%d package-level variables examined: %d written in reach of the entry points (monotone atomic counters excepted)", len(moduleGlobals(p)), stateful))
 }
 
 // pointerFormatOperands returns the operands of a formatting call whose static type is a pointer, channel, function or
